@@ -10,6 +10,8 @@ AUTH_FAULTS = [
     "A.origin-other-host", "A.origin-case", "A.origin-trailing-slash", "A.origin-scheme",
     "A.origin-proper-prefix", "A.origin-infix", "A.origin-empty",
     "A.expected-origin-trailing-slash", "A.expected-origin-surrounding-space",
+    "A.expected-origin-ipv6-literal-read-as-glob", "A.expected-origin-star-read-as-glob", "A.origin-unparsable-port",
+    "A.origin-unbalanced-bracket", "A.origin-fullwidth-solidus",
     "A.cdj-undecodable-byte-in-origin", "A.cdj-undecodable-byte-in-type", "A.rpid-hash-of-idna-form", "A.rpid-hash-of-lowercase",
     "A.rpid-other", "A.rpid-uppercase", "A.up-clear", "A.uv-clear-required",
     "A.id-other-credential", "A.id-padded", "A.id-std-alphabet", "A.cred-type",
@@ -54,7 +56,7 @@ def std_alphabet_raw_id():
 
 def build_assertion(cred, *, rp_id="example.com", challenge=b"\x01" * 32, origin="https://example.com",
                     origin_list=None, flags=UP, counter=5, stored=4, require_uv=False, ext=None, faults=(),
-                    cd_extra=None):
+                    cd_extra=None, attachment=None, attested_aaguid=None):
     """returns (assertion fields, expectation) for the authentication ceremony with `faults` applied"""
     faults = set(faults)
     unknown = faults - set(AUTH_FAULTS)
@@ -97,6 +99,19 @@ def build_assertion(cred, *, rp_id="example.com", challenge=b"\x01" * 32, origin
         expected_origin = origin + "/" if origin_list is None else [o + "/" for o in origin_list]
     if "A.expected-origin-surrounding-space" in faults:
         expected_origin = " " + origin if origin_list is None else [o + " " for o in origin_list]
+    if "A.expected-origin-ipv6-literal-read-as-glob" in faults:
+        cd_origin = "https://1:8443"
+        expected_origin = "https://[::1]:8443" if origin_list is None else ["https://[::1]:8443", "https://b.example"]
+    if "A.expected-origin-star-read-as-glob" in faults:
+        cd_origin = "https://login.example.com"
+        expected_origin = "https://*.example.com" if origin_list is None else ["https://*.example.com"]
+    # wrong origins that URL libraries refuse to take apart: still just strings that differ from the expected one
+    if "A.origin-unparsable-port" in faults:
+        cd_origin = origin + ":80a"
+    if "A.origin-unbalanced-bracket" in faults:
+        cd_origin = "https://[::1"
+    if "A.origin-fullwidth-solidus" in faults:
+        cd_origin = origin.replace("://", ":\uff0f\uff0f") + "\uff0fx"
     if "A.rpid-hash-of-idna-form" in faults:
         # the RP expects a non-ASCII RP ID; the authenticator data carries the hash of a *different string* (its A-label form)
         rp_id = "b\u00fccher.example"
@@ -135,7 +150,12 @@ def build_assertion(cred, *, rp_id="example.com", challenge=b"\x01" * 32, origin
     if "A.key-declares-other-alg" in faults and cred.alg in OTHER_ALG:
         stored_key_alg = OTHER_ALG[cred.alg]
     fl = flags | (ED if ext is not None else 0)
-    ad = core.auth_data(core.sha256(ad_rp.encode()), fl, counter, ext=ext)
+    if attested_aaguid is not None:
+        # an assertion whose authenticator data also carries attested credential data (AT set): legal, and signed like the rest
+        ad = core.auth_data(core.sha256(ad_rp.encode()), fl | AT, counter, aaguid=attested_aaguid, cred_id=cred.cred_id,
+                            cose=cred.cose(), ext=ext)
+    else:
+        ad = core.auth_data(core.sha256(ad_rp.encode()), fl, counter, ext=ext)
     cdj = core.client_data(typ, cd_challenge, cd_origin, **cd_kwargs)
     # bytes that are not UTF-8 inside a member: the client data is then not the JSON text the RP expects, whatever a
     # lenient decoder would make of it (what is signed is these very bytes)
@@ -149,6 +169,8 @@ def build_assertion(cred, *, rp_id="example.com", challenge=b"\x01" * 32, origin
         kw["sign_data"] = ad + cdj
     a = core.assertion(cred, rp_id=rp_id, challenge=challenge, origin=origin, flags=flags, counter=counter,
                        ad_override=ad, cdj_override=cdj, **kw)
+    if attachment is not None:
+        a["attachment"] = attachment      # an unsigned envelope member: it is reported by the client, it proves nothing
     if "A.id-other-credential" in faults:
         a["id"] = core.b64url(bytes(b ^ 0xFF for b in cred.cred_id))
     if "A.id-padded" in faults:
